@@ -99,7 +99,7 @@ pub fn random_call(rng: &mut Rng, pool: &[Tree]) -> Call {
             Box::new(move |d, _| n.compact_encode(d).map(|_| ()).map_err(|x| format!("{:?}", x)))
         }),
         17 => ("LazyValue::write_to_vec", {
-            let text = crate::refjson::compact(&if t.all_finite() { t.clone() } else { Tree::Null });
+            let text = if rng.bool() { a.clone() } else { crate::refjson::compact(&if t.all_finite() { t.clone() } else { Tree::Null }) };
             Box::new(move |d, _| match jsonb::parse_lazy_value(&text) {
                 Ok(lv) => {
                     lv.write_to_vec(d);
